@@ -5,6 +5,7 @@ import ao_corr
 def explore(run, lean):
     ao_corr.explore(run, "C10", 200 if run.tier == "quick" else 4000)
     ao_corr.explore_prestart(run, 60 if run.tier == "quick" else 1500)
+    ao_corr.explore_timed_placement(run, "C10", 40 if run.tier == "quick" else 1000)
     run.extra["rule"] = ("scenarios: one control thread issuing 2-7 calls (timed post_fifo/post_lifo with period 1-3 ticks, times 0-3, "
                          "deferred or not; cancel_event / cancel_events with the identical or an equal-but-distinct id / name object; "
                          "stop()), tracked-source capacity 2-6, optional plain poster; real ActiveObject under the deterministic "
@@ -13,6 +14,8 @@ def explore(run, lean):
                          "(b) sources armed before the object's thread exists (in the start state's ENTRY handler / on the unstarted object, "
                          "started 0-4 ticks later): post counts")
     run.assumptions.append("virtual time: sleep(p) wakes exactly p ticks later; real-clock drift (execution time per cycle) is not modelled")
+    ROUND6_RULE = '; repeat counts up to 513; placement of timed fifo / lifo posts among pending events'
+    run.extra["rule"] += ROUND6_RULE
 
 
 def replay(case):
